@@ -37,6 +37,7 @@ struct M<'a, K, const D: usize> {
     kname: &'static str,
     label: String,
     alphabet: Vec<[f64; D]>,
+    seed_pts: Vec<[f64; D]>,
     k1_points: Vec<[f64; D]>,
     with_flips: bool,
     inject_max_depth: Option<usize>,
@@ -46,7 +47,7 @@ struct M<'a, K, const D: usize> {
 
 impl<'a, K: Kernel<D, Scalar = f64> + Sync + Send, const D: usize> M<'a, K, D> {
     fn replay_json(&self, hist: &[Op], op: &Op, inj: Option<(&str, u32, u8)>, follow: Option<&Op>) -> Value {
-        json!({"D": D, "kernel": self.kname, "family": self.label, "alphabet": self.alphabet.iter().map(|p| p.to_vec()).collect::<Vec<_>>(), "history": hist, "op": op,
+        json!({"D": D, "kernel": self.kname, "family": self.label, "alphabet": self.alphabet.iter().map(|p| p.to_vec()).collect::<Vec<_>>(), "seed_points": self.seed_pts.iter().map(|p| p.to_vec()).collect::<Vec<_>>(), "history": hist, "op": op,
                "inject": inj.map(|(s, n, f)| json!({"site": s, "hit": n, "flavor": f})), "follow_up": follow})
     }
 
@@ -258,7 +259,7 @@ where
     DtI<K, D>: Send + Sync,
 {
     let k1_points: Vec<[f64; D]> = vec![std::array::from_fn(|i| 0.3 + 0.05 * i as f64)];
-    let m = M::<K, D> { rep, cn, kname, label: label.to_string(), alphabet, k1_points, with_flips, inject_max_depth, max_hits_per_site: 3, _k: std::marker::PhantomData };
+    let m = M::<K, D> { rep, seed_pts: seed_pts.to_vec(), cn, kname, label: label.to_string(), alphabet, k1_points, with_flips, inject_max_depth, max_hits_per_site: 3, _k: std::marker::PhantomData };
     let base: DtI<K, D> = if seed_pts.is_empty() {
         DelaunayTriangulation::with_empty_kernel(K::default())
     } else {
@@ -320,6 +321,9 @@ fn both<const D: usize>(rep: &Report, cn: &Counters, label: &str, alphabet: Vec<
 
 fn main() {
     let args = parse_args();
+    if let Some(p) = &args.replay {
+        std::process::exit(vcore::replay::generic(p));
+    }
     silence_panics();
     let rep = Report::new("C03", &args);
     vcore::exact::self_check();
